@@ -261,15 +261,7 @@ impl ByteCompiler<'_> {
             let exit = self.jump();
             self.patch_handler(handler_index);
 
-            let error = self.register_allocator.alloc();
-            self.bytecode.emit_exception(error.variable());
-
-            let handler_index = self.push_handler();
-            self.iterator_close(false);
-            self.patch_handler(handler_index);
-
-            self.bytecode.emit_throw(error.variable());
-            self.register_allocator.dealloc(error);
+            self.close_iterator_on_abrupt_exit(false);
             self.patch_jump(exit);
         }
 
@@ -420,16 +412,7 @@ impl ByteCompiler<'_> {
             let exit = self.jump();
             self.patch_handler(handler_index);
 
-            let error = self.register_allocator.alloc();
-            self.bytecode.emit_exception(error.variable());
-
-            // NOTE: Capture throw of the iterator close and ignore it.
-            let handler_index = self.push_handler();
-            self.iterator_close(for_of_loop.r#await());
-            self.patch_handler(handler_index);
-
-            self.bytecode.emit_throw(error.variable());
-            self.register_allocator.dealloc(error);
+            self.close_iterator_on_abrupt_exit(for_of_loop.r#await());
             self.patch_jump(exit);
         }
 
@@ -440,6 +423,38 @@ impl ByteCompiler<'_> {
         self.pop_loop_control_info();
 
         self.iterator_close(for_of_loop.r#await());
+    }
+
+    /// Handler of a `for-in`/`for-of` body: closes the loop's iterator and continues the abrupt completion.
+    ///
+    /// The completion is either a pending exception, or, when there is none, a `return()` called
+    /// on the suspended generator: the iterator must be closed in both cases.
+    fn close_iterator_on_abrupt_exit(&mut self, async_: bool) {
+        let has_exception = self.register_allocator.alloc();
+        let exception = self.register_allocator.alloc();
+        self.bytecode
+            .emit_maybe_exception(has_exception.variable(), exception.variable());
+
+        // The value passed to `return()`; awaiting the result of an async close overwrites it.
+        let return_value = self.register_allocator.alloc();
+        self.bytecode
+            .emit_set_register_from_accumulator(return_value.variable());
+
+        // NOTE: Capture throw of the iterator close; it is ignored if the completion is a throw.
+        let handler_index = self.push_handler();
+        self.iterator_close(async_);
+        self.patch_handler(handler_index);
+
+        let is_return = self.jump_if_false(&has_exception);
+        self.register_allocator.dealloc(has_exception);
+
+        self.bytecode.emit_throw(exception.variable());
+        self.register_allocator.dealloc(exception);
+
+        self.patch_jump(is_return);
+        self.bytecode.emit_set_accumulator(return_value.variable());
+        self.register_allocator.dealloc(return_value);
+        self.bytecode.emit_re_throw();
     }
 
     pub(crate) fn compile_while_loop(
